@@ -21,6 +21,10 @@ repairs and as the reproduction of the recorded finding.
                       request-id middleware and is held at Server.SendResponse / SendErrorResponse; request 1 times
                       out and is reset, request 2 is dispatched to a new runtime, then the held submission is
                       delivered: it must be refused and must not reach the caller of request 2.
+  double-reset        F-C10-3 (known): an invocation fails (runtime exit) and, while the reset started by its release
+                      goroutine is held before Server.Clear, its timer expires and starts a second reset; the first one
+                      completes, a second caller reserves and is dispatched to a new runtime, then the leftover reset
+                      completes and releases the second caller's reservation: empty "success" for caller 2.
 """
 from scen import Scn
 
@@ -121,9 +125,39 @@ def stale_in_flight(sid, api="error", timeout_ms=400):
     return s.done()
 
 
+def double_reset(sid, timeout_ms=400):
+    s = Scn(sid, ext=[], timeout_ms=timeout_ms, opWaitMs=8000)
+    s.meta(family=FAMILY, schedule="double-reset")
+    s.init()
+    s.await_exec(kind="rt")
+    tags = {"rt": s.poll("rt")}
+    s.round(tags, {})
+    s.hold("server.resetBeforeClear", 2)
+    it = s.invoke(caller=1, size=5, seed=7)
+    s.wait(tags["rt"])
+    s.sleep(timeout_ms - 100)
+    s.exit("rt", code=1)
+    s.until_held("server.resetBeforeClear", n=1)
+    s.until_held("server.resetBeforeClear", n=2)
+    s.release("server.resetBeforeClear")
+    s.sleep(30)
+    m = s.mark()
+    it2 = s.invoke(caller=2, size=6, seed=8)
+    s.await_exec(kind="rt", since=m)
+    t = s.call("rt", "next", async_=True)
+    s.wait(t)
+    s.release("server.resetBeforeClear")
+    s.sleep(50)
+    s.call("rt", "response", id="current", body="answer-2")
+    s.wait(it2)
+    s.wait(it)
+    return s.done()
+
+
 def scenarios(prefix, which=("watch-late-cancel", "clear-vs-invoke", "ghost-invoke")):
     out = []
     mk = {"watch-late-cancel": watch_late_cancel, "clear-vs-invoke": clear_vs_invoke, "ghost-invoke": ghost_invoke,
+          "double-reset": double_reset,
           "stale-error-in-flight": lambda sid: stale_in_flight(sid, "error"),
           "stale-response-in-flight": lambda sid: stale_in_flight(sid, "response")}
     for i, w in enumerate(which):
